@@ -1101,17 +1101,19 @@ class MoneyConverter:
             raise ValueError(f"Not a valid period: {validity}.")
         # check type of validity
         type_of_validity = self._type_of_validity
-        if type_of_validity is None:
-            self._type_of_validity = type(validity)
-        elif type_of_validity is not type(validity):
+        if not (type_of_validity is None or
+                type_of_validity is type(validity)):
             raise ValueError('Different types of validity periods given.')
-        # update internal dict
+        # create all rates before changing anything, so that an invalid rate
+        # spec does not result in a partial update
         base_currency = self._base_currency
-        it = (((validity, term_currency),
-               ExchangeRate(base_currency, unit_multiple, term_currency,
-                            term_amount))
-              for term_currency, term_amount, unit_multiple in rate_specs)
-        self._rate_dict.update(it)
+        rates = [((validity, term_currency),
+                  ExchangeRate(base_currency, unit_multiple, term_currency,
+                               term_amount))
+                 for term_currency, term_amount, unit_multiple in rate_specs]
+        # update internal dict
+        self._type_of_validity = type(validity)
+        self._rate_dict.update(rates)
 
     def get_rate(self, unit_currency: Currency, term_currency: Currency,
                  effective_date: Optional[date] = None) \
